@@ -103,8 +103,12 @@ class CHECK(Check):
     technique = ("Lean 4 theorems over the BaseMetrics model and over the statement-by-statement TRANSLATION of _base_metrics.py "
                  "(lifter base_metrics.py -> Generated/BaseMetricsSrc.lean, proved equal to the model) + compiled-driver "
                  "correspondence with the 7 public functions")
-    level_text = ("Theorems (all inputs, no size bound): rates in [0,1], TPR+FNR / TNR+FPR = 1 or both 0, pos_label swap, "
-                  "rejection rules of _get_labels_for_confusion_matrix, selection_rate/mean_prediction/count definitions. "
+    level_text = ("Theorems (all inputs, no size bound): rates in [0,1], TPR+FNR / TNR+FPR = 1 or both 0 (also at the level of the "
+                  "public functions in terms of 'a row of that class exists', positive weights), every rate = weight of one cell / "
+                  "weight of the whole true class for any accepted labelling, pos_label swap for two observed values and for "
+                  "single-valued vectors, accepted encodings and rejection rules of _get_labels_for_confusion_matrix, "
+                  "selection_rate/mean_prediction as division-free unique quotients in range, count; totalisation witnesses "
+                  "(zero weights, empty input, sentinel label) replayed on fairlearn. "
                   "Tie: the 7 public functions vs the compiled Lean model on generated + exhaustive small inputs, value "
                   "within 5e-14 (measured 7.7e-16) and scalar-ness of the returned object; independent Fraction oracle decides violations. "
                   "Translator tie: the bodies of _get_labels_for_confusion_matrix, the four rates, count, mean_prediction and "
